@@ -556,7 +556,12 @@ class State:
     def e_Path(self, e, env):
         r = e["res"]
         if r.get("k") == "Local":
-            return env.get(r["id"], self.default_for_type(e))
+            v = env.get(r["id"])
+            if v is None or v.k == "unk":
+                if self.ty.cls(e["t"]) == "ref":
+                    return AV("ref", Frame(None), sym="b:%s#%s" % (r["name"], r["id"]))
+                return v if v is not None else self.default_for_type(e)
+            return v
         return NONE  # constants, unit constructors (`None`), function items carry no position
 
     def e_Tup(self, e, env):
@@ -609,6 +614,29 @@ class State:
         vals = {f["name"]: self.eval(f["e"], env) for f in e["fields"]}
         if e.get("base"):
             self.eval(e["base"], env)
+        if adt == REF and "reference" in vals and "offset" in vals:
+            rv, ov = vals["reference"], vals["offset"]
+            crossed = None
+            if rv.k == "node" and rv.frame is not None:
+                crossed = tuple(sorted(rv.frame.syms))
+            offs = None
+            if ov.k == "off":
+                offs = (ov.sym,)
+            elif ov.k == "offsum":
+                offs = tuple(sorted(ov.items))
+            if crossed is not None and offs is not None and crossed:
+                self.sink("S-ref", crossed == tuple(sorted(offs)), e["sp"], "a rebuilt Reference carries the sum of the offsets it unwraps",
+                          "the payload was reached through %s but the new offset is built from %s: the distance to the "
+                          "parent frame is no longer the sum of the unwrapped steps (comments in front of a skipped token are lost)"
+                          % ([short_sym(x) for x in crossed], [short_sym(x) for x in offs]))
+            elif crossed:
+                mixed = ov.k in ("unk",) or True
+                # offset computed some other way (literal arithmetic): decidable only when it mentions no unwrapped offset at all
+                self.sink("S-ref", None if ov.k in ("unk", "none") and not self._mentions_offset(e) else (False if self._partial_offsets(e, crossed) else None),
+                          e["sp"], "a rebuilt Reference carries the sum of the offsets it unwraps",
+                          "the payload was reached through %s but the new offset does not add all of their offsets"
+                          % [short_sym(x) for x in crossed])
+            return self.default_for_type(e)
         if adt == RANGE or adt.startswith("core::ops::range::Range"):
             av = NONE
             for v in vals.values():
@@ -617,6 +645,20 @@ class State:
                 av = join(av, v)
             return av
         return self.default_for_type(e)
+
+    def _mentions_offset(self, e):
+        for f in e["fields"]:
+            if f["name"] == "offset":
+                return any(x.get("k") == "Field" and x["name"] == "offset" for x in hir.nodes(f["e"]))
+        return False
+
+    def _partial_offsets(self, e, crossed):
+        """offset expression reads fewer `.offset` fields than references were crossed (e.g. `r.offset + 1`)"""
+        for f in e["fields"]:
+            if f["name"] == "offset":
+                n_off = len([x for x in hir.nodes(f["e"]) if x.get("k") == "Field" and x["name"] == "offset"])
+                return 0 < n_off < len(crossed)
+        return False
 
     def e_If(self, e, env):
         cond = hir.strip(e["cond"])
@@ -1019,7 +1061,10 @@ class State:
                             "AstInfo::slice: the node is in frame `%(a)r`, the token slice in frame `%(b)r`")
             return t if t.k == "toks" else UNK
         if not (decl.startswith("spl_frontend") or decl.startswith("lsp4spl")):
-            # std / third party function
+            # std / third party function (nom combinators, ...): closures handed to it are analysed with unknown arguments
+            for a in args:
+                if a.k == "closure":
+                    self.apply(a, [UNK] * len(a.items["params"]), env, e)
             if nm in STD_TRANSPARENT_FNS:
                 vals = [a for a in args if a.k not in ("none", "closure")]
                 if not vals:
